@@ -39,7 +39,8 @@ class Module:
 
     def zero_grad(self):
         for p in self.parameters():
-            if p.requires_grad: p.zero_()
+            # a parameter backward never reached has nothing to clear; giving it a zero gradient would make step() update it
+            if p.requires_grad and p._grad is not None: p.zero_()
     
     def freeze(self):
         for p in self.parameters():
